@@ -289,6 +289,10 @@ func (p *pathIterator) str() (string, error) {
 		}
 	}
 ret:
+	if i > len(p.src) {
+		// the last byte is a backslash
+		i = len(p.src)
+	}
 	val := p.src[p.pos:i]
 	p.pos = i
 	val, err := strconv.Unquote(val)
